@@ -38,9 +38,20 @@ TOKEN_RE = re.compile(r'''
 ''', re.X)
 
 
+_LIT_OR_COMMENT = re.compile(r'''R"\((?:.|\n)*?\)"|"(?:[^"\\\n]|\\.)*"|'(?:[^'\\\n]|\\.)+'|//[^\n]*|/\*(?:.|\n)*?\*/''')
+
+
 def strip_comments(s):
-    s = re.sub(r'/\*.*?\*/', lambda m: re.sub(r'[^\n]', ' ', m.group(0)), s, flags=re.S)
-    return re.sub(r'//[^\n]*', '', s)
+    """comments out (a block comment keeps its line breaks); string and character literals are left alone, so that
+    a `//` inside a literal is not taken for a comment"""
+    def rep(m):
+        t = m.group(0)
+        if t.startswith('//'):
+            return ''
+        if t.startswith('/*'):
+            return re.sub(r'[^\n]', ' ', t)
+        return t
+    return _LIT_OR_COMMENT.sub(rep, s)
 
 
 def drop_trace(body):
@@ -488,7 +499,7 @@ class Parser:
             try:
                 self.next()
                 ty = self.parse_type_text()
-                if self.at(')') and (ty.split()[0] in ('uintptr_t', 'std::uintptr_t', 'char', 'std::size_t', 'const', 'void', 'int', 'unsigned') or ty.rstrip().endswith('*')):
+                if self.at(')') and (ty.split()[0] in ('uintptr_t', 'std::uintptr_t', 'uint16_t', 'std::uint16_t', 'uint32_t', 'uint64_t', 'char', 'std::size_t', 'const', 'void', 'int', 'unsigned') or ty.rstrip().endswith('*')):
                     self.next()
                     return ('cast', 'c', ty, self.parse_unary())
             except Unsupported:
